@@ -38,7 +38,8 @@ SameKey(m1, m2) == m1.kind = m2.kind /\ m1.ver = m2.ver
 ChartHooks(c) ==
   LET hs == ChartLib[c].hooks IN
   [h \in DOMAIN hs |-> [kind |-> hs[h].kind, events |-> Range(hs[h].events),
-                        weight |-> hs[h].weight, pols |-> Range(hs[h].pols)]]
+                        weight |-> hs[h].weight, pols |-> Range(hs[h].pols),
+                        keep |-> IF "keep" \in DOMAIN hs[h] THEN hs[h].keep ELSE FALSE]]
 
 ChartCRDs(c) == ChartLib[c].crds           \* sequence of CRD object ids in crds/ (read order = file name order)
 
